@@ -25,16 +25,48 @@ def _cached(ctx, key, fn):
     return ctx.cache[key]
 
 
+def atom_parser(ctx):
+    """the un-cached reader of atom symbols, by role: the module-level function of grammar_rules that process_atom_symbol
+    calls and that matches a compiled module-level pattern (its name is free to change)"""
+    key = ("atom_parser",)
+    if key not in ctx.cache:
+        pas = ctx.fn(GR + ".process_atom_symbol")
+        cands = []
+        for s_ in ctx.cg.sites(pas):
+            for g in s_.callees:
+                if g.module is pas.module and g.cls is None and g is not pas and g not in cands:
+                    cands.append(g)
+        rx = [g for g in cands if any(isinstance(n, ast.Call) and isinstance(n.func, ast.Attribute) and n.func.attr in ("match", "fullmatch", "search")
+                                      for n in own_nodes(g.node))]
+        pick = rx if len(rx) == 1 else (cands if len(cands) == 1 else [])
+        if len(pick) != 1:
+            raise AnalysisError("the un-cached atom-symbol reader called by process_atom_symbol was not identified (%d candidate(s))" % len(cands))
+        ctx.cache[key] = pick[0]
+    return ctx.cache[key]
+
+
+def atom_pattern_name(ctx):
+    """(module name, global name) of the compiled pattern the atom-symbol reader matches"""
+    f = atom_parser(ctx)
+    for n in own_nodes(f.node):
+        if isinstance(n, ast.Call) and isinstance(n.func, ast.Attribute) and n.func.attr in ("match", "fullmatch", "search") \
+                and isinstance(n.func.value, (ast.Name, ast.Attribute)):
+            r = ctx.db.resolve_dotted(f.module, n.func.value)
+            if r and r[0] == "global":
+                return r[1], r[2]
+    raise AnalysisError("the pattern matched by the atom-symbol reader is not a module-level constant")
+
+
 def elements(ctx):
     return set(ctx.fold.global_value("selfies.constants", "ELEMENTS"))
 
 
 def dec_atom(ctx):
     def build():
-        pat = ctx.fold.global_value(GR, "SELFIES_ATOM_PATTERN")
+        pat = ctx.fold.global_value(*atom_pattern_name(ctx))
         r, groups, tree = RL.parse_pattern(pat.pattern)
         # which group is checked against ELEMENTS: engine run of the un-cached symbol processor
-        NC = ctx.fn(GR + "._process_atom_selfies_no_cache")
+        NC = atom_parser(ctx)
         h = IntFacts(ctx)
         eng = Engine(ctx, h)
         h.bind(eng)
@@ -192,7 +224,8 @@ def enc_atom_inner(ctx):
 def bond_prefix_language(ctx):
     """language of the bond character the encoder puts in front of an atom (through its token printer)"""
     def build():
-        tok = ctx.fn("selfies.encoder._atom_to_selfies")
+        from rules.shared import atom_token_printer
+        tok = atom_token_printer(ctx)
         a2s = ctx.fn(SU + ".atom_to_smiles")
 
         class H(IntFacts):
@@ -274,7 +307,7 @@ def check_reader_keeps_groups(ctx, rep, RULE):
     arguments the atom is built from.  (A shortcut taken on a *falsy parsed value* -- isotope 0, "H0" -- instead of on an
     empty group loses a written field: the decoded SMILES re-encodes to a different symbol.)"""
     from sa.sym import Ref, Tup, Num, Con
-    f = ctx.fn("selfies.grammar_rules._process_atom_selfies_no_cache")
+    f = atom_parser(ctx)
     h = IntFacts(ctx)
     eng = Engine(ctx, h)
     h.bind(eng)
